@@ -685,6 +685,8 @@ def sym_getitem(interp, obj, idx):
 # ============================================================================ symbolic sequences
 
 def slist_elem(interp, xs, idx_term):
+    if xs.volatile:
+        return xs.elem(interp, idx_term if not isinstance(idx_term, int) else z3.IntVal(idx_term))
     key = z3.simplify(idx_term).sexpr() if not isinstance(idx_term, int) else str(idx_term)
     v = xs.cache.get(key)
     if v is None:
@@ -817,7 +819,11 @@ class SMap:
 
 # ============================================================================ quantifiers (spec level)
 
+MAX_QUANT_LEAVES = 256
+
+
 def _quant(interp, args, is_forall):
+    from .path import QFrame
     lo, hi, pred = args
     st = interp.st
     j = st.fresh_int('j')
@@ -826,12 +832,26 @@ def _quant(interp, args, is_forall):
     st.no_fork += 1
     n_pc = len(st.pc)
     st.solver.push()
+    leaves = []
     try:
-        with st.scope(rng):
-            if st.check() == z3.unsat:
-                body = True if is_forall else False
-            else:
-                body = interp.truth(interp.call(pred, [SInt(j)], {}))
+        work = [[]]
+        while work:
+            qf = QFrame(work.pop())
+            st.qframes.append(qf)
+            n_sc = len(st.scopes)
+            try:
+                with st.scope(rng):
+                    if st.infeasible_site():
+                        v = True if is_forall else False
+                    else:
+                        v = interp.truth(interp.call(pred, [SInt(j)], {}))
+            finally:
+                del st.scopes[n_sc:]
+                st.qframes.pop()
+            leaves.append(([c for (c, _d) in qf.decisions], v))
+            work.extend(qf.pending)
+            if len(leaves) > MAX_QUANT_LEAVES:
+                raise Unsupported('more than %d case combinations inside a quantifier body' % MAX_QUANT_LEAVES)
     finally:
         st.no_fork -= 1
         st.solver.pop()
@@ -841,7 +861,11 @@ def _quant(interp, args, is_forall):
     # (forall-introduction: j was fresh and constrained only by the range, which each fact carries)
     for t in learned:
         st._add(z3.ForAll([j], t) if _mentions(t, j) else t)
-    bt = to_z3(body)
+    if len(leaves) == 1 and not leaves[0][0]:
+        bt = to_z3(leaves[0][1])
+    else:
+        # the case conditions of the local runs partition the space: merge the values
+        bt = z3.Or(*[z3.And(*(conds + [to_z3(v)])) for (conds, v) in leaves])
     if is_forall:
         return wrap(z3.ForAll([j], z3.Implies(rng, bt)))
     return wrap(z3.Exists([j], z3.And(rng, bt)))
@@ -870,6 +894,65 @@ def q_forall(interp, args, kwargs):
 
 def q_exists(interp, args, kwargs):
     return _quant(interp, args, False)
+
+
+def _prefix_fun(interp, args, is_count):
+    """sum_prefix(xs, k, f) / count_prefix(xs, k, pred): the value P(k) of the prefix function of the
+    sequence, with the definition unfolded at k:  P(0) = 0,  P(k) = P(k-1) + f(xs[k-1])  for 0 < k <= len.
+    Sound for sequences that only grow at the end (append): elements below an index never change."""
+    xs, k, f = args
+    st = interp.st
+    if isinstance(xs, (SOpt, SChoice)):
+        xs = interp.resolve(xs)
+    if isinstance(k, (SOpt, SChoice)):
+        k = interp.resolve(k)
+
+    def value_at(x):
+        v = interp.call(f, [x], {})
+        if is_count:
+            t = interp.truth(v)
+            return 1 if t is True else 0 if t is False else wrap(z3.If(t.t, 1, 0))
+        if isinstance(v, (SOpt, SChoice)):
+            v = interp.resolve(v)
+        if isinstance(v, (bool, SBool)):
+            return wrap(z3.If(to_z3(v), 1, 0))
+        if not isinstance(v, (int, SInt)):
+            raise Unsupported('sum_prefix: summand is not an integer')
+        return v
+
+    if not isinstance(xs, SList):
+        if isinstance(k, Sym):
+            raise Unsupported('sum_prefix over a concrete sequence with symbolic bound')
+        acc = 0
+        for x in list(interp.iterate(xs))[:k]:
+            acc = interp.binop(ast.Add, acc, value_at(x))
+        return acc
+    if not isinstance(f, types.FunctionType) or f.__closure__:
+        raise Unsupported('sum_prefix/count_prefix need a module-level function (no lambda/closure)')
+    base, idx = xs.key if xs.key is not None else (xs.uid, ())
+    name = '%s<%s|%s.%s>' % ('count' if is_count else 'sum', base, f.__module__, f.__qualname__)
+    fn = z3.Function(name, *([z3.IntSort()] * (len(idx) + 2)))
+    P = lambda t: fn(*(list(idx) + [t]))
+    kt = to_z3(k)
+    st.assume(P(z3.IntVal(0)) == 0)
+    if not (isinstance(k, int) and k <= 0):
+        in_range = z3.And(kt > 0, kt <= xs.length)
+        with st.scope(in_range):
+            if not st.infeasible_site():
+                v = value_at(slist_elem(interp, xs, z3.simplify(kt - 1)))
+                st.assume(P(kt) == P(kt - 1) + to_z3(v))
+        if is_count:
+            # consequence of the definition by induction on k (trusted lemma, DESIGN 2.5)
+            st.assume(z3.Implies(z3.And(kt >= 0, kt <= xs.length), z3.And(P(kt) >= 0, P(kt) <= kt)))
+    return wrap(P(kt))
+
+
+def q_sum_prefix(interp, args, kwargs):
+    return _prefix_fun(interp, args, False)
+
+
+def q_count_prefix(interp, args, kwargs):
+    return _prefix_fun(interp, args, True)
 
 
 def m_is_opaque(interp, args, kwargs):
